@@ -73,9 +73,9 @@ PROPS = {
     ),
     'C17': dict(
         drivers=[dict(driver='peermgr', monitors=['MON17']), dict(driver='peerconc', monitors=['MON17C'])],
-        proof_files=['PeerMgrProofs.v', 'PeerMgrConcProofs.v'],
-        level_text="Invariant theorems over all label sequences (Connected, Disconnected, GetProcess, queue self-shutdown, late queue exit with its onShutdown callback) of the PeerManager model: at most one live queue per peer (C17_one_live), the last disconnect leaves no live queue and no table entry (C17_last_disconnect), every send is handed the table's queue (C17_get_process); the same with concurrent senders: GetProcess is modelled as its read-locked lookup plus its write-locked getOrCreate, a group of k concurrent calls (optionally racing one Connected/Disconnected/late-exit call) is a run of those labels, so one-live holds in every state groups can reach (C17_conc_one_live) and all concurrent senders are handed the same queue (C17_conc_same_process). The model is run against the real peermanager.PeerManager with a scripted process factory each run; the one-live/table monitor is evaluated on the implementation's snapshots; a second driver forces groups of 1-4 concurrent GetProcess callers into the all-lookups-first interleaving on the real code by holding the table lock (verif hook) until every caller is parked on it.",
-        level_note="Partial: FIFO order inside one queue belongs to the message-queue model (C16); Disconnected is one atomic step in the model although the Go code calls Shutdown() on the removed process just after releasing the table lock (two adjacent statements, no blocking call in between).",
+        proof_files=['PeerMgrProofs.v', 'PeerMgrConcProofs.v', 'MsgQueueFifo.v'], props=['C17', 'C17fifo'],
+        level_text="Invariant theorems over all label sequences (Connected, Disconnected, GetProcess, queue self-shutdown, late queue exit with its onShutdown callback) of the PeerManager model: at most one live queue per peer (C17_one_live), the last disconnect leaves no live queue and no table entry (C17_last_disconnect), every send is handed the table's queue (C17_get_process); the same with concurrent senders: GetProcess is modelled as its read-locked lookup plus its write-locked getOrCreate, a group of k concurrent calls (optionally racing one Connected/Disconnected/late-exit call) is a run of those labels, so one-live holds in every state groups can reach (C17_conc_one_live) and all concurrent senders are handed the same queue (C17_conc_same_process). The model is run against the real peermanager.PeerManager with a scripted process factory each run; the one-live/table monitor is evaluated on the implementation's snapshots; C17_fifo_wire: over the message-queue model of C15/C16, for every history (transactions, network outcomes, retries, shutdowns, select choices) the messages whose send succeeds reach the wire in strictly increasing topic order = the order their builders were queued (that model is tied to the real MessageQueue by the C15/C16 drivers). A second driver forces groups of 1-4 concurrent GetProcess callers into the all-lookups-first interleaving on the real code by holding the table lock (verif hook) until every caller is parked on it.",
+        level_note="FIFO is stated at message granularity over the message-queue model (a transaction scrubbed after a failure is never sent, so no order is claimed for it). Disconnected is one atomic step in the model although the Go code calls Shutdown() on the removed process just after releasing the table lock (two adjacent statements, no blocking call in between).",
         trusted=["scripted process factory stands in for messagequeue.MessageQueue's life cycle (Startup, Shutdown, exit callback)"],
         assumptions=["Disconnected's table removal and the following Shutdown() call are treated as one step"],
     ),
